@@ -395,5 +395,20 @@ def parseExprEntry (items : List Item) : Except PErr Expr :=
   | Except.ok (e, _) => Except.ok e
   | Except.error err => Except.error err
 
+/-- What the caller of `parse.Expr` can observe about the lexer goroutine: the result, how
+    many items the parser took from the channel, and whether the channel was drained
+    before returning.  `Expr` drains after a successful parse; on an error `tree.recover`
+    drains — except for a Go runtime error, which it re-panics BEFORE draining. -/
+structure EntryOutcome where
+  result : Except PErr Expr
+  drained : Bool
+
+def exprEntry (items : List Item) : EntryOutcome :=
+  match (parseExpr pf (fuelFor items.length) 0).run (initState items) with
+  | Except.ok (e, _) => { result := Except.ok e, drained := true }
+  | Except.error (PErr.err p) => { result := Except.error (PErr.err p), drained := true }
+  | Except.error PErr.panic => { result := Except.error PErr.panic, drained := false }
+  | Except.error PErr.fuelOut => { result := Except.error PErr.fuelOut, drained := false }
+
 end
 end SoyVerif.Model.Parser
